@@ -88,10 +88,25 @@ class ExcInst:
 
 
 class FStr:
-    """Opaque formatted string whose exact text is not modelled."""
+    """Formatted string whose exact text is not modelled: a flat list of parts, each a literal
+    str or ("fmt", value, spec) for a formatted value (A-STR: one white-space free token)."""
 
     def __init__(self, parts):
-        self.parts = parts
+        flat = []
+        for p in parts:
+            if isinstance(p, FStr):
+                flat.extend(p.parts)
+            elif isinstance(p, str):
+                if p:
+                    flat.append(p)
+            elif isinstance(p, tuple) and len(p) == 3 and p[0] == "fmt":
+                flat.append(p)
+            else:
+                flat.append(("fmt", p, None))
+        self.parts = flat
+
+    def nums(self):
+        return [p[1] for p in self.parts if isinstance(p, tuple)]
 
 
 class Frame:
@@ -548,7 +563,7 @@ class Interp:
 
     def _format_concrete(self, v, spec, conv):
         if isinstance(spec, FStr):
-            return FStr([v])
+            return FStr([("fmt", v, None)])
         if isinstance(v, bool) or v is None or isinstance(v, (int, str)):
             try:
                 if conv == ord("r"):
@@ -561,7 +576,7 @@ class Interp:
                 return format(float(v), spec or "")
             except (ValueError, TypeError):
                 raise PyRaise("ValueError", "format")
-        return FStr([v])
+        return FStr([("fmt", v, spec)])
 
     def ev_FormattedValue(self, e, fr):
         raise Unsupported("bare FormattedValue")
